@@ -134,6 +134,49 @@ def generate(seed: int, run: int, tier: str) -> dict:
     return {"prop": PROP, "seed": seed, "run": run, "env": env, "timeout": 180, "ops": ops, "final": True}
 
 
+def systematic_jobs(tier: str, seed: int, ctx) -> list[dict]:
+    """Display-name ladders, independent of the time budget (and so of the machine's load): for a stem
+    and a kind, 12 (thorough: also 101) objects with the same display name, then objects displayed as
+    stem+digits ("m1", "m10", "m11", "m12") and as the stem's prefix -- every generated name made of
+    the display name and a number must still be unique -- followed by clones with and without a
+    subscript, one cache eviction and one digit-boundary jump. All step and final oracles run."""
+    jobs = []
+    ladders = [12] if tier == "quick" else [12, 101]
+    for li, length in enumerate(ladders):
+        for ki, kind in enumerate(["symbol", "function", "indexed", "quantity", "vecsymbol"]):
+            for si, stem in enumerate(["m", "x_0", "SYM"]):
+                for ai, assume in enumerate([{}, {"positive": True}] if kind in ("symbol", "indexed") else [{}]):
+                    def mk(name, kind=kind, assume=assume):
+                        op = {"op": kind, "name": name, "latex": None}
+                        if kind == "quantity":
+                            op.update(value=2, unit="meter", prefix=None, override=False)
+                        else:
+                            op["dim"] = "mass"
+                        if kind in ("symbol", "indexed"):
+                            op.update(assume=assume, kw=False)
+                        if kind == "function":
+                            op["nargs"] = None
+                        return op
+                    ops = [mk(stem + d) for d in ("1", "10", "11")]
+                    ops += [mk(stem) for _ in range(length)]
+                    ops += [mk(stem + d) for d in ("1", "12", str(length), str(length + 1))]
+                    ops.append({"op": "clear_cache"})
+                    ops += [mk(stem), mk(stem[:-1] or stem)]
+                    if kind in ("symbol", "function", "indexed"):
+                        ck = {"symbol": "clone_symbol", "function": "clone_function", "indexed": "clone_indexed"}[kind]
+                        for src, sub in ((3, None), (3, "1"), (0, "1"), (4, "0")):
+                            c = {"op": ck, "src": src, "name": None, "latex": None, "subscript": sub}
+                            if ck == "clone_function":
+                                c["nargs"] = None
+                            else:
+                                c["assume"] = None
+                            ops.append(c)
+                    ops.append({"op": "jump", "prefix": {"function": "FUN", "quantity": "QTY", "vecsymbol": "VEC"}.get(kind, "SYM"), "to": 10**(2 + li) - 2})
+                    ops += [mk(stem) for _ in range(4)]
+                    jobs.append({"prop": PROP, "seed": seed, "run": f"sys:ladder:{length}:{kind}:{si}:{ai}", "env": {"hashseed": 0, "cache": 1000}, "timeout": 180, "ops": ops, "final": True})
+    return jobs
+
+
 # ============================================================================ child side
 
 
